@@ -49,6 +49,9 @@ def cases(tier, seed):
     out = []
     for (m, dens, sm), (g, u), ad, dtm in itertools.product(meshes, GU, (False, True), (1e-2, 1e-1)):
         out.append(dict(dev=m, dens=dens, smooth=sm, gamma=g, u=u, adaptive=ad, dt_max=dtm, screening=False))
+    # histories: the quiet run is not the first thing that happens to the device / mesh object
+    for (m, dens, sm), prior in itertools.product(meshes[:3] if quick else meshes[:6], ("pinned_driven_solve", "driven_solver_alive", "quiet_twice", "screened_driven_solve")):
+        out.append(dict(dev=m, dens=dens, smooth=sm, gamma=10.0, u=5.79, adaptive=True, dt_max=1e-2, screening=False, prior=prior))
     scr_meshes = meshes[:2] if quick else meshes
     scr_gu = GU[:2] if quick else GU
     for (m, dens, sm), (g, u) in itertools.product(scr_meshes, scr_gu):
@@ -64,7 +67,23 @@ def run_case(case):
 
     res = CaseResult()
     res.key = case_key(case)
-    dev = zoo.device(case["dev"], density=case["dens"], smooth=case["smooth"], gamma=case["gamma"], u=case["u"])
+    prior = case.get("prior")
+    dev = zoo.device(case["dev"], density=case["dens"], smooth=case["smooth"], gamma=case["gamma"], u=case["u"], memo=(prior is None))
+    alive = None
+    if prior:
+        names = [t.name for t in dev.terminals]
+        cur = None
+        if len(names) >= 2:
+            cur = {n: 0.0 for n in names}
+            cur[names[0]], cur[names[1]] = 0.8, -0.8
+        po = tdgl.SolverOptions(solve_time=0.05, dt_init=1e-3, dt_max=1e-2, output_file="prior.h5", progress_interval=10**9,
+                                include_screening=(prior == "screened_driven_solve"), screening_tolerance=1e-2)
+        if prior in ("pinned_driven_solve", "screened_driven_solve"):
+            tdgl.solve(dev, po, applied_vector_potential=0.5, terminal_currents=cur)
+        elif prior == "driven_solver_alive":
+            alive = tdgl.TDGLSolver(dev, po, applied_vector_potential=0.5, terminal_currents=cur)  # constructed, kept alive, never run
+        else:
+            tdgl.solve(dev, tdgl.SolverOptions(solve_time=0.05, dt_init=1e-3, dt_max=1e-2, terminal_psi=None, progress_interval=10**9))
     dtm = case["dt_max"]
     ad = case["adaptive"]
     window = 3
@@ -109,7 +128,7 @@ def run_case(case):
     if w > TOLERANCES["quiet"] or raised:
         which = max(worst, key=worst.get)
         res.violate(
-            "not-stationary", explicit_euler_unstable=unstable, small_gamma=bool(case["gamma"] <= 1.0),
+            "not-stationary", explicit_euler_unstable=unstable, small_gamma=bool(case["gamma"] <= 1.0), **({"after": prior} if prior else {}),
             detail={"case": case, "S": S, "lambda_max": lam, "worst": worst, "largest": which, "raised": raised},
         )
     # adaptive: dt grows to dt_max and stays
